@@ -3,9 +3,12 @@
 package cache
 
 import (
+	"context"
 	"time"
 
+	"github.com/miekg/dns"
 	"github.com/semihalev/sdns/internal/waitgroup"
+	"github.com/semihalev/sdns/middleware"
 )
 
 // Accessors for the C11 check. No behaviour change.
@@ -33,4 +36,10 @@ func VerifC11DedupLeader(c *Cache, key uint64) (done func(), ok bool) {
 		return func() {}, false
 	}
 	return func() { c.wg.DoneGeneration(key, g) }, true
+}
+
+// VerifC11WrapWriter builds the cache's response-writer wrapper around inner
+// as Cache.ServeDNS installs it on a miss (accessor only).
+func VerifC11WrapWriter(c *Cache, inner middleware.ResponseWriter, req *dns.Msg) middleware.ResponseWriter {
+	return &ResponseWriter{ResponseWriter: inner, cache: c, ctx: context.Background(), req: req}
 }
